@@ -1,64 +1,89 @@
 import Hannibal.Monitor.Basic
 /-
-  C10 — timers respect their period/delay, die with the actor, are not leaked.
+  C10 — timers respect their period/delay, die with the actor and never prolong it.
+
+  `monC10`  : every sleep of a timer task lasts a full period / delay and starts only after the previous
+              one was over (so consecutive deliveries are at least one period apart); a timer's closure
+              never runs before its delay has elapsed; `delayed_send` / `delayed_exec` fire at most once;
+              after the actor terminated no timer fires or re-arms and no callback of it begins.
+  `monC10q` : every delivered `interval` tick corresponds to a wake-up of its timer; after termination
+              all timer tasks have ended by quiescence (none is leaked).
 -/
 namespace Hannibal
 
 structure T10 where
+  id : Nat
   kind : TimerKind
   d : Nat
-  lastDue : Option Nat      -- deadline of the current sleep
-  arms : Nat
+  lastDue : Option Nat      -- deadline of the current / last sleep
   fires : Nat
-  ticks : Nat
-  ended : Bool
   deriving Repr, DecidableEq
 
 structure C10St where
   clock : Nat
-  timers : List (Nat × T10)
+  timers : List T10
   terminated : Bool
   deriving Repr, DecidableEq
 
+def C10St.find (s : C10St) (t : Nat) : Option T10 := s.timers.find? (fun x => x.id == t)
+
 def C10St.upd (s : C10St) (t : Nat) (f : T10 → T10) : C10St :=
-  { s with timers := s.timers.map (fun p => if p.1 == t then (p.1, f p.2) else p) }
+  { s with timers := s.timers.map (fun x => if x.id == t then f x else x) }
+
+def delayedKind : TimerKind → Bool
+  | .delayedSend | .delayedExec => true
+  | _ => false
+
+def bad10 (st : C10St) : Label → Bool
+  | .timerArm t due =>
+    (match st.find t with
+     | none => true
+     | some x =>
+       st.terminated || decide (due < st.clock + x.d)                   -- a full period / delay from now
+         || (match x.lastDue with | some p => decide (st.clock < p) | none => false))   -- previous sleep over
+  | .fire t _ =>
+    (match st.find t with
+     | none => true
+     | some x =>
+       st.terminated
+         || (match x.lastDue with | some p => decide (st.clock < p) | none => true)     -- not before its delay
+         || (delayedKind x.kind && decide (x.fires ≥ 1)))                               -- delayed kinds: once
+  | .tickBegin _ _ | .cbBegin _ => st.terminated
+  | _ => false
+
+def next10 (st : C10St) : Label → C10St
+  | .time t => { st with clock := t }
+  | .ctxTimer t k d => { st with timers := st.timers ++ [{ id := t, kind := k, d, lastDue := none, fires := 0 }] }
+  | .timerArm t due => st.upd t (fun x => { x with lastDue := some due })
+  | .fire t _ => st.upd t (fun x => { x with fires := x.fires + 1 })
+  | l => if l.terminates then { st with terminated := true } else st
 
 def monC10 (_c : MonCtx) : Mon C10St where
   init := { clock := 0, timers := [], terminated := false }
+  step st l := if bad10 st l then none else some (next10 st l)
+
+structure C10qSt where
+  arms : List (Nat × Nat)       -- timer ↦ number of times its task went to sleep
+  ticks : List (Nat × Nat)      -- timer ↦ ticks delivered
+  live : List Nat               -- timers registered and not seen to end
+  terminated : Bool
+  deriving Repr, DecidableEq
+
+def bump (l : List (Nat × Nat)) (t : Nat) : List (Nat × Nat) :=
+  if l.any (fun p => p.1 == t) then l.map (fun p => if p.1 == t then (p.1, p.2 + 1) else p) else (t, 1) :: l
+
+def monC10q (_c : MonCtx) : Mon C10qSt where
+  init := { arms := [], ticks := [], live := [], terminated := false }
   step st l :=
     match l with
-    | .time t => some { st with clock := t }
-    | .ctxTimer t k d =>
-      some { st with timers := (t, { kind := k, d, lastDue := none, arms := 0, fires := 0, ticks := 0, ended := false }) :: st.timers }
-    | .timerArm t due =>
-      (match lookup t st.timers with
-       | none => none
-       | some x =>
-         -- a full period/delay from now, and not before the previous sleep was over
-         if st.terminated then none
-         else if due < st.clock + x.d then none
-         else if (match x.lastDue with | some p => decide (st.clock < p) | none => false) then none
-         else some (st.upd t (fun x => { x with lastDue := some due, arms := x.arms + 1 })))
-    | .fire t _ =>
-      (match lookup t st.timers with
-       | none => none
-       | some x =>
-         if st.terminated then none
-         else if (match x.lastDue with | some p => decide (st.clock < p) | none => true) then none   -- not before its delay
-         else if x.kind != .intervalWith && x.fires ≥ 1 then none                           -- delayed kinds: once
-         else some (st.upd t (fun x => { x with fires := x.fires + 1 })))
+    | .ctxTimer t _ _ => some { st with live := t :: st.live }
+    | .timerArm t _ => some { st with arms := bump st.arms t }
+    | .timerEnd t => some { st with live := st.live.filter (fun x => x != t) }
     | .tickBegin t _ =>
-      (match lookup t st.timers with
-       | none => none
-       | some x =>
-         -- each delivered tick was sent at a wake-up that re-armed the timer
-         if x.ticks + 1 + 1 > x.arms then none
-         else some (st.upd t (fun x => { x with ticks := x.ticks + 1 })))
-    | .timerEnd t => some (st.upd t (fun x => { x with ended := true }))
-    | .cbBegin _ => if st.terminated then none else some st
-    | .quiescent _ =>
-      -- after termination all timer tasks have ended: none is leaked
-      if st.terminated && !st.timers.all (fun p => p.2.ended) then none else some st
+      -- each delivered tick was sent at a wake-up that re-armed the timer
+      if (lookup t st.ticks).getD 0 + 2 > (lookup t st.arms).getD 0 then none
+      else some { st with ticks := bump st.ticks t }
+    | .quiescent _ => if st.terminated && !st.live.isEmpty then none else some st
     | l => if l.terminates then some { st with terminated := true } else some st
 
 end Hannibal
